@@ -504,7 +504,7 @@ func placeRunning(r *u.Rng, c *Cluster, rooms map[string]*room, j *Job, k int, l
 }
 
 // genTopoCluster: a cluster for the SubsetNodesFn check (T2(b)).
-func genTopoCluster(r *u.Rng, dotted bool) Cluster {
+func genTopoCluster(r *u.Rng, dotted bool, terminating int) Cluster {
 	var c Cluster
 	levels := [][]string{{"zone"}, {"zone", "rack"}, {"zone", "rack"}, {"zone", "rack", "slot"}}[r.Intn(4)]
 	c.Topos = []Topo{{Name: "T", Levels: levels}}
@@ -534,6 +534,8 @@ func genTopoCluster(r *u.Rng, dotted bool) Cluster {
 	}
 	zeroSomeRequests(r, &j)
 	c.Jobs = append(c.Jobs, j)
+	// terminating / finished pods of the constrained job on arbitrary nodes (terminating in 12ths)
+	sprinkleTerminating(r, &c, rooms, terminating, 12)
 	return c
 }
 
@@ -547,11 +549,14 @@ func genContended(r *u.Rng) Cluster {
 	genNodes(r, &c, r.Range(2, 4), levels, false, 3)
 	c.Queues = []cycle.Queue{{Name: "q1", Deserved: 0, Limit: 0, OverQuota: 1, Priority: 100}, {Name: "q2", Deserved: 4, Limit: 0, OverQuota: 1, Priority: 100}}
 	k := 0
+	rooms := map[string]*room{}
 	for _, n := range c.Nodes {
+		rooms[n.Name] = &room{n.Gpus, n.Cpu}
 		for g := int64(0); g < n.Gpus; g++ {
 			if r.Chance(1, 6) {
 				continue // a free GPU here and there
 			}
+			rooms[n.Name].gpus--
 			k++
 			p := Pod{PodSpec: core.PodSpec{Name: fmt.Sprintf("f%d-0", k), Cpu: 250, Mem: 1 << 30, Gpus: 1, Status: pod_status.Running, Node: n.Name}}
 			p.Labels = genPodLabels(r)
@@ -577,6 +582,7 @@ func genContended(r *u.Rng) Cluster {
 		}
 		c.Jobs = append(c.Jobs, j)
 	}
+	sprinkleTerminating(r, &c, rooms, 1, 3)
 	c.Actions = []string{"allocate"}
 	for _, a := range []string{"consolidation", "reclaim", "preempt"} {
 		if r.Chance(3, 4) {
@@ -632,6 +638,7 @@ func genCycle(r *u.Rng, dotted bool) Cluster {
 		}
 		c.Jobs = append(c.Jobs, j)
 	}
+	sprinkleTerminating(r, &c, rooms, 1, 3)
 	c.Actions = []string{"allocate"}
 	for _, a := range []string{"consolidation", "reclaim", "preempt"} {
 		if r.Chance(2, 3) {
